@@ -262,6 +262,73 @@ def _worker_call(args):
 
 
 # --------------------------------------------------------------------------- #
+# a process pool that notices when a worker dies
+
+_DONE = object()
+STALL_S = float(os.environ.get("XV_STALL_S", "1800"))
+
+
+class WorkerDied(Exception):
+    def __init__(self, in_flight):
+        Exception.__init__(self, "a worker process died")
+        self.in_flight = in_flight  # indices of the items not yet returned
+
+
+class XPool:
+    def __init__(self, n, modname, env):
+        from concurrent.futures import ProcessPoolExecutor
+
+        self.n = n
+        self.ex = ProcessPoolExecutor(
+            n, mp_context=mp.get_context("spawn"),
+            initializer=_worker_init, initargs=(modname, env))
+
+    def imap_unordered(self, func, items):
+        """yields (index, result); raises WorkerDied(indices in flight)"""
+        from concurrent.futures import wait, FIRST_COMPLETED
+        from concurrent.futures.process import BrokenProcessPool
+
+        pending = {}
+        nxt = 0
+        window = 4 * self.n
+        try:
+            while nxt < len(items) or pending:
+                while nxt < len(items) and len(pending) < window:
+                    pending[self.ex.submit(func, items[nxt])] = nxt
+                    nxt += 1
+                done, _ = wait(list(pending), timeout=STALL_S,
+                               return_when=FIRST_COMPLETED)
+                if not done:
+                    raise HarnessError(
+                        "no scenario finished within %.0f s (a hang); in "
+                        "flight: %r" % (STALL_S, [items[i] for i in
+                                                  pending.values()][:3]))
+                for fut in done:
+                    idx = pending.pop(fut)
+                    try:
+                        res = fut.result()
+                    except BrokenProcessPool:
+                        pending[fut] = idx
+                        raise
+                    yield idx, res
+        except BrokenProcessPool:
+            raise WorkerDied(sorted(pending.values()))
+
+    def shutdown(self, graceful):
+        procs = list((getattr(self.ex, "_processes", None) or {}).values())
+        try:
+            self.ex.shutdown(wait=graceful, cancel_futures=True)
+        except Exception:
+            pass
+        if not graceful:
+            for p_ in procs:
+                try:
+                    p_.terminate()
+                except Exception:
+                    pass
+
+
+# --------------------------------------------------------------------------- #
 # context
 
 
@@ -293,29 +360,88 @@ class Ctx:
                 "XV_TIER": self.tier,
                 "XV_SEED": str(self.seed),
             }
-            mpctx = mp.get_context("spawn")
-            self._pool = mpctx.Pool(
-                NPROC, initializer=_worker_init,
-                initargs=(self.mod.__name__, env),
-            )
+            self._pool = XPool(NPROC, self.mod.__name__, env)
         return self._pool
 
     def close(self, graceful=False):
         if self._pool is not None:
-            if graceful:
-                self._pool.close()
-            else:
-                self._pool.terminate()
-            self._pool.join()
+            self._pool.shutdown(graceful)
             self._pool = None
+
+    def _robust(self, func, items):
+        """imap_unordered over the pool that survives a worker dying: the
+        item(s) that kill their worker - twice, each alone in a fresh process
+        - are reported as violations, everything else is run normally"""
+        items = list(items)
+        while items:
+            pool = self.pool()
+            try:
+                for idx, res in pool.imap_unordered(func, items):
+                    items[idx] = _DONE
+                    yield res
+                return
+            except WorkerDied as wd:
+                suspects = [items[i] for i in wd.in_flight]
+                for i in wd.in_flight:
+                    items[i] = _DONE
+                items = [it for it in items if it is not _DONE]
+                self.close()
+                if ("%s|process-died" % self.pid) in self.violations:
+                    # (already established and reported once; the scenarios
+                    # in flight are not narrowed down again)
+                    self.coverage_extra["scenarios_lost_to_dead_workers"] = \
+                        self.coverage_extra.get(
+                            "scenarios_lost_to_dead_workers", 0) + len(suspects)
+                    continue
+                for res in self._isolate(func, suspects):
+                    yield res
+
+    def _isolate(self, func, suspects):
+        """run each suspect alone in its own process (16 at a time)"""
+        from concurrent.futures import ThreadPoolExecutor
+
+        def alone(item):
+            for attempt in (0, 1):
+                p1 = XPool(1, self.mod.__name__, self.pool_env())
+                try:
+                    for _, res in p1.imap_unordered(func, [item]):
+                        return ("ok", res)
+                except WorkerDied:
+                    pass
+                finally:
+                    p1.shutdown(False)
+            return ("died", item)
+
+        with ThreadPoolExecutor(min(NPROC, max(1, len(suspects)))) as tp:
+            outs = list(tp.map(alone, suspects))
+        for status, val in outs:
+            if status == "ok":
+                yield val
+                continue
+            # a chunk of cases: narrow down to the single cases
+            if func is _worker_chunk and len(val) > 1:
+                for res in self._isolate(func, [[c] for c in val]):
+                    yield res
+                continue
+            self.evaluations += 1
+            case = val[0] if func is _worker_chunk else {
+                "_call": val[0], "payload": val[1]}
+            self.violation(
+                "%s|process-died" % self.pid,
+                "the worker process died (twice, alone in a fresh process) "
+                "while running this scenario; it completes on a correct tree",
+                {"_died": True, "func": func.__name__, "item": case})
+
+    def pool_env(self):
+        return {"PYTHONPATH": os.environ.get("PYTHONPATH", ""),
+                "XV_TIER": self.tier, "XV_SEED": str(self.seed)}
 
     def map_unordered(self, fname, payloads, chunksize=1):
         """Call mod.<fname>(payload) for every payload in the pool."""
         if NPROC == 1 or os.environ.get("XV_INLINE"):
             it = (_call(self.mod, fname, p) for p in payloads)
         else:
-            it = self.pool().imap_unordered(
-                _worker_call, ((fname, p) for p in payloads), chunksize)
+            it = self._robust(_worker_call, [(fname, p) for p in payloads])
         for r in it:
             if isinstance(r, LibraryRaised):
                 # the library raised where a correct tree does not
@@ -361,7 +487,7 @@ class Ctx:
                 mod.worker_init()
             results = map(_worker_chunk, chunks)
         else:
-            results = self.pool().imap_unordered(_worker_chunk, chunks)
+            results = self._robust(_worker_chunk, chunks)
         for ch, out in results:
             for case, (h, nt, oc, vio, counts) in zip(ch, out):
                 self.note(h, nt, oc, counts)
@@ -474,7 +600,25 @@ def run_replay(path):
     mod = load_module(art["property"])
     if hasattr(mod, "worker_init"):
         mod.worker_init()
-    if isinstance(art["case"], dict) and "_call" in art["case"]:
+    if isinstance(art["case"], dict) and art["case"].get("_died"):
+        # (run in a child process: the scenario kills the interpreter)
+        item = art["case"]["item"]
+        func = globals()[art["case"]["func"]]
+        if func is _worker_call:
+            item = (item["_call"], item["payload"])
+        else:
+            item = [item]
+        env = {"PYTHONPATH": os.environ.get("PYTHONPATH", ""),
+               "XV_TIER": "quick", "XV_SEED": "0"}
+        p1 = XPool(1, mod.__name__, env)
+        try:
+            list(p1.imap_unordered(func, [item]))
+            vio = []
+        except WorkerDied:
+            vio = [(art["key"], "the worker process died")]
+        finally:
+            p1.shutdown(False)
+    elif isinstance(art["case"], dict) and "_call" in art["case"]:
         r = _call(mod, art["case"]["_call"], art["case"]["payload"])
         vio = [(r.key, r.what)] if isinstance(r, LibraryRaised) else []
     elif hasattr(mod, "replay"):
